@@ -19,6 +19,7 @@ Lemma ll_body1 c fuel L cm l s evs :
   gen_LevelLimit_forl1 c fuel L cm l s evs = Some (ll_step (maximize c) L (demes (ms s)) cm l, s, evs).
 Proof.
   unfold gen_LevelLimit_forl1, ll_step, lvl_at. dunf.
+  rewrite <- ?Nat.ltb_antisym.      (* `a + b > L`, `L < a + b` or `not (a + b <= L)` *)
   destruct (L <? _); [|reflexivity].
   rewrite (forl_fold (fun acc d => cm_set acc d (filter (fun k => ind_gt (maximize c) k (nth (L - length (filter (fun d0 => d_active (dnth d0 (demes (ms s)))) (level_ids (demes (ms s)) (l + 1))))
             (sort_best_first (maximize c) (flat_map (fun d0 => cm_get cm d0) (filter (fun d0 => Nat.eqb (d_lvl (dnth d0 (demes (ms s)))) l) (cm_keys cm)))) 0%Z)) (cm_get acc d)))).
